@@ -387,6 +387,7 @@ func runASTs(c *core.Child, e *envs, m *model.Schema, si int) {
 		"directive @d on FIELD { __typename }",
 	}
 	special = append(special, crossLevelCycles(m)...)
+	special = append(special, subscriptionCycles(m)...)
 	// diamonds: few fragments, exponentially many spread paths
 	for _, depth := range []int{12, 30, 60} {
 		var b strings.Builder
@@ -424,6 +425,9 @@ func runASTs(c *core.Child, e *envs, m *model.Schema, si int) {
 		}
 		vars := randomVars(r, text)
 		op := opName(r)
+		if i < len(special) {
+			op = "" // first pass over the hand-written documents: the operation is found
+		}
 		size := len(text)
 		guarded(c, "ValidateDocument", size, text, func() { graphql.ValidateDocument(&env.Schema, doc, nil) })
 		// single rules too (a rule may rely on another having run)
@@ -452,7 +456,7 @@ func runASTs(c *core.Child, e *envs, m *model.Schema, si int) {
 			guarded(c, "PlanCache.Get(normalize)", size*2, text, func() { e.ncache.Get(&env.Schema, text, op) })
 			guarded(c, "PlanCache.Get", size*2, text, func() { e.cache.Get(&env.Schema, text, op) })
 		}
-		if i%3 == 0 {
+		if i < len(special)*2 || i%3 == 0 {
 			ctx, cancel := context.WithCancel(context.Background())
 			var ch chan *graphql.Result
 			if !guarded(c, "ExecuteSubscription", size*4, text, func() {
@@ -514,6 +518,39 @@ func runZero(c *core.Child) {
 		}
 		c.Feature("zero-valued-parameters")
 		guarded(c, cs.name, 64, cs.name, cs.f)
+	}
+}
+
+// subscriptionCycles: unvalidated subscription documents whose fragment cycle
+// passes through an inline fragment at the ROOT level (the subscribe step
+// collects the root selection with its own collector).
+func subscriptionCycles(m *model.Schema) []string {
+	if m.Subscription == "" {
+		m = withSubscription(m) // the schema the documents are run against is built from this variant
+	}
+	st := m.Type(m.Subscription)
+	if st == nil {
+		return nil
+	}
+	field := "__typename"
+	for _, f := range st.Fields {
+		need := false
+		for _, a := range f.Args {
+			if a.Type.Kind == "nonnull" {
+				need = true
+			}
+		}
+		if !need && m.IsLeaf(f.Type.Base()) {
+			field = f.Name
+			break
+		}
+	}
+	S := m.Subscription
+	return []string{
+		fmt.Sprintf("subscription { ...A } fragment A on %s { %s ... on %s { ...A } }", S, field, S),
+		fmt.Sprintf("subscription { ...A } fragment A on %s { %s ...B } fragment B on %s { ... { ...A } }", S, field, S),
+		fmt.Sprintf("subscription { ... on %s { ...A } } fragment A on %s { ... on %s { ... { ...A %s } } }", S, S, S, field),
+		fmt.Sprintf("subscription { ...A } fragment A on %s { ...A %s }", S, field),
 	}
 }
 
